@@ -196,9 +196,18 @@ def install(dfols):
 
     def ratio(self, x, current_iter, rvec_list, d, gopt, H):
         t = _sink()
+        objopt_before = self.model.objopt() if t is not None else None
         out = real_ratio(self, x, current_iter, rvec_list, d, gopt, H)
         if t is not None:
             r, ex = out
+            if self.h is None:
+                # the inputs of the decision, recomputed with the package's own helpers (deterministic in-process)
+                try:
+                    pred = -C.model_value(gopt, H, d)
+                    actual = objopt_before - C.sumsq(np.mean(rvec_list, axis=0))
+                    t.emit("rat", float(pred), float(actual), len(self.model.projections), float(r), "-" if ex is None else int(ex.flag))
+                except Exception:
+                    pass
             t.emit("ratio", float(r), "-" if ex is None else int(ex.flag), self.delta, self.rho,
                    1 if self.model.npt() >= self.model.num_pts else 0)
         return out
